@@ -811,3 +811,98 @@ func init() {
 	oldSplit := intrSplit
 	intrinsics["bytes.Split"] = intrSplitExact(false, oldSplit)
 }
+
+// ---- encoding/asn1 as an opaque, self-delimiting, invertible encoding ----
+//
+// Marshal(v) yields a fresh byte string whose content and length the verifier does not know; the state remembers
+// which value it encodes. Unmarshal(b, &x), when b provably starts with the bytes of such a string and x has the
+// type of the value it encodes, stores that value in x and returns the rest of b with a nil error (DER is
+// self-delimiting; encoding/asn1 decodes what it encoded - an assumption about the dependency, listed in the
+// evidence). In every other case the call is abstracted (unconstrained results). Byte-slice fields of the decoded
+// value alias the original ones (encoding/asn1 copies; content equality is unaffected).
+
+type asn1Rec struct {
+	val Val
+	typ types.Type
+	s   *SliceVal
+}
+
+func intrASN1Marshal(e *Exec, st *State, fr *Frame, args []Val, in ssa.Instruction, rt types.Type) []callRes {
+	iv, ok := args[0].(*IfaceVal)
+	if !ok || iv.Dyn == nil || iv.Opaque || e.IntMode {
+		return nil
+	}
+	c := e.C
+	out := e.freshSliceObj(st, types.Typ[types.Uint8], "asn1")
+	e.metaAll[out.Obj].Growable = false
+	st.assume(c.Eq(out.Cap, out.Len))
+	st.assume(c.Not(out.Nil))
+	st.assume(e.leIdx(e.idx(2), out.Len)) // tag and length octets at least
+	okb := c.Fresh("asn1.ok", BoolS)
+	if st.Ghost == nil {
+		st.Ghost = map[string]Val{}
+	}
+	st.Ghost[fmt.Sprintf("asn1:%d", out.Obj)] = &asn1Rec{val: iv.V, typ: iv.Dyn, s: out}
+	e.UsedIntrinsics["encoding/asn1 as an opaque self-delimiting encoding that Unmarshal inverts (assumed contract on the dependency)"] = true
+	return []callRes{{st, TupleVal{out, &IfaceVal{Opaque: true, IsNil: okb, ID: c.Fresh("errid", BV(64))}}}}
+}
+
+func intrASN1Unmarshal(e *Exec, st *State, fr *Frame, args []Val, in ssa.Instruction, rt types.Type) []callRes {
+	b, ok := args[0].(*SliceVal)
+	iv, ok2 := args[1].(*IfaceVal)
+	if !ok || !ok2 || iv.Dyn == nil || iv.Opaque || e.IntMode || b.Obj == 0 || st.Record != nil {
+		return nil
+	}
+	pt, ok := iv.Dyn.Underlying().(*types.Pointer)
+	ptr, ok3 := iv.V.(*PtrVal)
+	if !ok || !ok3 || ptr.Obj == 0 {
+		return nil
+	}
+	c := e.C
+	bav := e.sliceBacking(st, b)
+	if bav == nil || !bav.Scalar {
+		return nil
+	}
+	var keys []string
+	for k := range st.Ghost {
+		if strings.HasPrefix(k, "asn1:") {
+			keys = append(keys, k)
+		}
+	}
+	sortStrings(keys)
+	for _, k := range keys {
+		rec, ok := st.Ghost[k].(*asn1Rec)
+		if !ok || !types.Identical(rec.typ, pt.Elem()) {
+			continue
+		}
+		if _, alive := st.Heap[rec.s.Obj]; !alive {
+			continue
+		}
+		rav := e.sliceBacking(st, rec.s)
+		kv := c.Var(c.FreshName("asn1k"), e.idxSort())
+		goal := c.And(e.leIdx(rec.s.Len, b.Len),
+			c.Implies(e.ltIdx(kv, rec.s.Len), c.Eq(e.sel(bav.C, c.Add(b.Off, kv)), e.sel(rav.C, c.Add(rec.s.Off, kv)))))
+		if !e.quickValid(st, goal) {
+			continue
+		}
+		e.store(st, ptr, rec.val)
+		rest := &SliceVal{Obj: b.Obj, Path: b.Path, Off: c.Add(b.Off, rec.s.Len), Len: c.Sub(b.Len, rec.s.Len), Cap: c.Sub(b.Cap, rec.s.Len), Nil: c.False(), ElemT: b.ElemT}
+		return []callRes{{st, TupleVal{rest, errNil(e)}}}
+	}
+	return nil
+}
+
+func sortStrings(s []string) {
+	for i := 1; i < len(s); i++ {
+		for j := i; j > 0 && s[j] < s[j-1]; j-- {
+			s[j], s[j-1] = s[j-1], s[j]
+		}
+	}
+}
+
+func init() {
+	intrinsics["encoding/asn1.Marshal"] = intrASN1Marshal
+	declining["encoding/asn1.Marshal"] = true
+	intrinsics["encoding/asn1.Unmarshal"] = intrASN1Unmarshal
+	declining["encoding/asn1.Unmarshal"] = true
+}
